@@ -6,7 +6,7 @@ from xml.sax.saxutils import escape, quoteattr
 from . import alpha
 from .world import World
 
-LET = {"a": "a", "A": "A", "b": "b", "e'": "é", "E'": "É"}
+LET = {"a": "a", "A": "A", "b": "b", "e'": "é", "E'": "É", "sp": " "}
 CARD = "urn:ietf:params:xml:ns:carddav"
 
 
